@@ -199,14 +199,6 @@ impl InstructionGenerator {
         }
     }
 
-    /// Replaces the value of A with true if it is zero and with false otherwise
-    /// (`UNTIL x` continues while `x` is zero; `NOT x` would only do for x = 0 and x = -1).
-    fn generate_is_zero(&mut self, pos: Position) {
-        self.push(Instruction::CopyAToB, pos);
-        self.push_load(Variant::VInteger(0), pos);
-        self.push(Instruction::Equal, pos);
-    }
-
     fn generate_do_loop_top(
         &mut self,
         condition: ExpressionPos,
@@ -217,9 +209,13 @@ impl InstructionGenerator {
         self.label("do", pos);
         self.generate_expression_instructions(condition);
         if kind == DoLoopConditionKind::Until {
-            self.generate_is_zero(pos);
+            // leave the loop as soon as the condition is true, by the same test of truth as WHILE
+            self.jump_if_false("do-body", pos);
+            self.jump("loop", pos);
+            self.label("do-body", pos);
+        } else {
+            self.jump_if_false("loop", pos);
         }
-        self.jump_if_false("loop", pos);
         self.visit(statements);
         self.mark_statement_address(); // to be able to resume on error
         self.jump("do", pos);
@@ -238,10 +234,12 @@ impl InstructionGenerator {
         self.mark_statement_address(); // to be able to resume on error
         self.generate_expression_instructions(condition);
         if kind == DoLoopConditionKind::Until {
-            self.generate_is_zero(pos);
+            // go round again while the condition is false, by the same test of truth as WHILE
+            self.jump_if_false("do", pos);
+        } else {
+            self.jump_if_false("loop", pos);
+            self.jump("do", pos);
         }
-        self.jump_if_false("loop", pos);
-        self.jump("do", pos);
         self.label("loop", pos);
     }
 }
